@@ -1768,3 +1768,197 @@ class MessageBody(Writeable):''', '''    def __len__(self) -> int:
 
 
 class MessageBody(Writeable):''', expect='silent')
+
+# ---------------------------------------------------------------- C06
+ASTRPY = 'pymap/parsing/specials/astring.py'
+MBXSPEC = 'pymap/parsing/specials/mailbox.py'
+SKEYPY2 = 'pymap/parsing/specials/searchkey.py'
+AUTHCMD = 'pymap/parsing/command/auth.py'
+OPTSPY = 'pymap/parsing/specials/options.py'
+V('c06-revert-modutf7-spin', 'C06', 'R6.1', MODUTF7,
+  '''                    is_usascii = True
+                    break
+            else:
+                break''', '''                    is_usascii = True
+                    break''')
+V('c06-list-loop-no-progress', 'C06', 'R6.1', PRIM,
+  '''            item, buf = ExpectedParseable.parse(buf, params)
+            if len(items) == limit:''',
+  '''            item, _ = ExpectedParseable.parse(buf, params)
+            if len(items) == limit:''')
+V('c06-seqset-comma-not-consumed', 'C06', 'R6.1', SEQPY,
+  '''            if buf and buf[0] != 0x2c:
+                break
+            buf = buf[1:]
+        if not sequences:''', '''            if buf and buf[0] != 0x2c:
+                break
+        if not sequences:''', edits=[(SEQPY, '''            if buf and buf[0] != 0x2c:
+                break
+            buf = buf[1:]
+        if not sequences:''', '''            if buf and buf[0] != 0x2c:
+                break
+        if not sequences:'''), (SEQPY, '''            item, buf = cls._parse_part(buf)
+            sequences.append(item)''', '''            item, _ = cls._parse_part(buf)
+            sequences.append(item)''')])
+V('c06-optional-parser-in-expected', 'C06', 'R6.1', SELECTCMD,
+  'params_copy = params.copy(expected=[Flag])',
+  'params_copy = params.copy(expected=[Flag, ExtensionOptions])')
+V('c06-find-lines-no-advance', 'C06', 'R6.1', MIMEPY,
+  '''            ret.append((start, idx, next_start))
+            start = next_start''', '''            ret.append((start, idx, next_start))
+            start = idx''')
+V('c06-revert-mailbox-decode', 'C06', 'R6.2', MBXSPEC,
+  '''        try:
+            return cls(modutf7_decode(mailbox)), buf
+        except UnicodeError as exc:
+            raise NotParseable(buf) from exc''',
+  '''        return cls(modutf7_decode(mailbox)), buf''')
+V('c06-revert-charset', 'C06', 'R6.2', SELECTCMD,
+  '''                except (LookupError, UnicodeError) as exc:''',
+  '''                except LookupError as exc:''')
+V('c06-astring-filter-unguarded', 'C06', 'R6.2', SKEYPY2,
+  '''        try:
+            return ret.value.decode(params.charset or 'ascii'), after
+        except UnicodeError as exc:
+            raise NotParseable(buf) from exc''',
+  '''        return ret.value.decode(params.charset or 'ascii'), after''')
+V('c06-number-unguarded-int', 'C06', 'R6.2', PRIM,
+  '''        atom = match.group(0)
+        if not cls._num_pattern.match(atom):
+            raise NotParseable(buf)
+        return cls(int(match.group(0))), buf[match.end(0):]''',
+  '''        return cls(int(match.group(0))), buf[match.end(0):]''')
+V('c06-date-filter-valueerror', 'C06', 'R6.2', SKEYPY2,
+  '''        try:
+            date = datetime.strptime(date_str, '%d-%b-%Y')
+        except ValueError as exc:
+            raise NotParseable(buf) from exc''',
+  '''        date = datetime.strptime(date_str, '%d-%b-%Y')''')
+V('c06-new-recursion', 'C06', 'R6.3', ASTRPY,
+  '''        string, buf = String.parse(buf, params)
+        return cls(string.value, bytes(string)), buf''',
+  '''        if buf[0:1] == b'(':
+            inner, buf = cls.parse(buf[1:], params)
+            return inner, buf[1:]
+        string, buf = String.parse(buf, params)
+        return cls(string.value, bytes(string)), buf''')
+V('c06-revert-subject-loop', 'C06', 'R6.3', 'pymap/threads.py',
+  '''        while True:
+            match = cls._first_match(
+                value, cls._fwd_pattern, cls._re_pattern,
+                cls._listtag_pattern)
+            if match is None:
+                return cls._whitespace.sub(' ', value.strip())
+            value = value[match.end(0):]''',
+  '''        match = cls._first_match(
+            value, cls._fwd_pattern, cls._re_pattern, cls._listtag_pattern)
+        if match is None:
+            return cls._whitespace.sub(' ', value.strip())
+        else:
+            return cls._subject(value[match.end(0):])''')
+V('c06-revert-write-containment', 'C06', 'R6.4', IMAP,
+  '''                    try:
+                        await self.write_response(response)
+                    except Exception:
+                        await self.send_error_disconnect()
+                        raise''', '''                    await self.write_response(response)''')
+V('c06-revert-bye-order', 'C06', 'R6.4', IMAP,
+  '''                    else:
+                        bad_commands = 0
+                    try:
+                        await self.write_response(response)
+                    except Exception:
+                        await self.send_error_disconnect()
+                        raise''', '''                    else:
+                        bad_commands = 0''',
+  edits=[(IMAP, '''                    if response.is_bad:
+                        bad_commands += 1''', '''                    try:
+                        await self.write_response(response)
+                    except Exception:
+                        await self.send_error_disconnect()
+                        raise
+                    if response.is_bad:
+                        bad_commands += 1'''),
+         (IMAP, '''                    else:
+                        bad_commands = 0
+                    try:
+                        await self.write_response(response)
+                    except Exception:
+                        await self.send_error_disconnect()
+                        raise''', '''                    else:
+                        bad_commands = 0''')])
+V('c06-toobig-after-expect', 'C06', 'R6.5', PRIM,
+  '''        if cls._check_too_big(params, literal_length):
+            raise NotParseable(buf, b'TOOBIG')
+        elif match.group(3) == b'+':''',
+  '''        if match.group(3) == b'+':''',
+  edits=[(PRIM, '''        if cls._check_too_big(params, literal_length):
+            raise NotParseable(buf, b'TOOBIG')
+        elif match.group(3) == b'+':''', '''        if match.group(3) == b'+':'''),
+         (PRIM, '''        if len(literal) != literal_length:
+            raise NotParseable(buf)
+        return cls(literal, binary), buf[literal_length:]''',
+          '''        if cls._check_too_big(params, literal_length):
+            raise NotParseable(buf, b'TOOBIG')
+        if len(literal) != literal_length:
+            raise NotParseable(buf)
+        return cls(literal, binary), buf[literal_length:]''')])
+V('c06-list-limit-after-append', 'C06', 'R6.5', PRIM,
+  '''            if len(items) == limit:
+                raise NotParseable(buf)
+            items.append(item)''', '''            items.append(item)''')
+V('c06-revert-none-date', 'C06', 'R6.6', 'pymap/parsing/response/fetch.py',
+  '''        date = self.date.datetime if self.date else None
+        datetime: DateTime | Nil = \\
+            DateTime(date) if date is not None else Nil()''',
+  '''        datetime: DateTime | Nil = \\
+            DateTime(self.date.datetime) if self.date else Nil()''')
+V('c06-qp-decoder-strict', 'C06', 'R6.7', 'pymap/mime/cte.py',
+  '''        ret = quopri.decodestring(raw)
+        return Writeable.wrap(ret)''', '''        ret = quopri.decodestring(raw)
+        return Writeable.wrap(ret.decode('ascii').encode('utf-8'))''')
+V('c06-fetchattr-unhandled', 'C06', 'R6.7', FATTR,
+  "b'RFC822.SIZE', b'BODYSTRUCTURE', b'EMAILID',",
+  "b'RFC822.SIZE', b'BODYSTRUCTURE', b'EMAILID', b'MODSEQ',")
+# twins
+V('c06-twin-depth-param', 'C06', 'R6.3', 'pymap/threads.py',
+  '''        while True:
+            match = cls._first_match(
+                value, cls._fwd_pattern, cls._re_pattern,
+                cls._listtag_pattern)
+            if match is None:
+                return cls._whitespace.sub(' ', value.strip())
+            value = value[match.end(0):]''',
+  '''        if depth > 50:
+            return cls._whitespace.sub(' ', value.strip())
+        match = cls._first_match(
+            value, cls._fwd_pattern, cls._re_pattern, cls._listtag_pattern)
+        if match is None:
+            return cls._whitespace.sub(' ', value.strip())
+        else:
+            return cls._subject(value[match.end(0):], depth + 1)''',
+  expect='silent',
+  edits=[('pymap/threads.py', '''        while True:
+            match = cls._first_match(
+                value, cls._fwd_pattern, cls._re_pattern,
+                cls._listtag_pattern)
+            if match is None:
+                return cls._whitespace.sub(' ', value.strip())
+            value = value[match.end(0):]''',
+          '''        if depth > 50:
+            return cls._whitespace.sub(' ', value.strip())
+        match = cls._first_match(
+            value, cls._fwd_pattern, cls._re_pattern, cls._listtag_pattern)
+        if match is None:
+            return cls._whitespace.sub(' ', value.strip())
+        else:
+            return cls._subject(value[match.end(0):], depth + 1)'''),
+         ('pymap/threads.py', 'def _subject(cls, value: str) -> str:',
+          'def _subject(cls, value: str, depth: int = 0) -> str:')])
+V('c06-twin-cursor-loop', 'C06', 'R6.1', MODUTF7,
+  '''            else:
+                parts.append(chr(byte))
+                buf = buf[1:]''', '''            else:
+                parts.append(chr(byte))
+                step = 1
+                buf = buf[step:]''', expect='silent')
